@@ -140,6 +140,14 @@ def hygiene():
                 if w.startswith("Hypothes") and in_section:
                     continue
                 bad.append("%s:%d: %s" % (p.relative_to(COQ), ln, line.strip()[:80]))
+    # the committed witness file is what tools/mkwitness.py writes from harness/corpus.py
+    try:
+        r = subprocess.run([str(VERIF / "tools" / "mkwitness.py"), "--check"], capture_output=True, text=True, timeout=120,
+                           env=dict(os.environ, PYTHONPATH=str(REPO / "src")))
+        if r.returncode != 0:
+            bad.append("Concrete/Witness.v is not what tools/mkwitness.py generates from harness/corpus.py " + (r.stderr or "")[-200:])
+    except Exception as e:  # noqa
+        bad.append("tools/mkwitness.py --check could not run: %r" % (e,))
     return bad
 
 
